@@ -6,6 +6,7 @@ package jsondb
 // one state that existed during the call.
 
 import (
+	"encoding/json"
 	"fmt"
 	"os"
 	"path/filepath"
@@ -34,6 +35,9 @@ func c11jProbe() *topology.FunctionTopology {
 
 func c11jSig(id string, v int, p *topology.FunctionTopology) detection.Signature {
 	s := detection.Signature{ID: id, Name: fmt.Sprintf("%s.v%d", id, v), EntropyScore: 5.0, EntropyTolerance: 0.5, NodeCount: 4, LoopDepth: 1}
+	// required calls (one of them blank, as a hand-edited database may contain) and patterns: the
+	// matcher walks these slices, which the store shares between all scans
+	s.IdentifyingFeatures = detection.IdentifyingFeatures{RequiredCalls: []string{"net.Dial", "", "Dial"}, StringPatterns: []string{"tcp"}}
 	if v == 1 {
 		s.TopologyHash = detection.GenerateTopologyHash(p)
 		s.FuzzyHash = p.FuzzyHash
@@ -60,7 +64,10 @@ type c11jReader struct {
 
 func c11jReaders() []c11jReader {
 	return []c11jReader{
-		{"ScanTopology", func(s *Scanner, p *topology.FunctionTopology) string { a, _ := s.ScanTopology(p, "f"); return c11jFmt(a) }},
+		{"ScanTopology", func(s *Scanner, p *topology.FunctionTopology) string {
+			a, _ := s.ScanTopology(p, "f")
+			return c11jFmt(a)
+		}},
 		{"ScanTopologyExact", func(s *Scanner, p *topology.FunctionTopology) string {
 			a, _ := s.ScanTopologyExact(p, "f")
 			if a == nil {
@@ -98,6 +105,32 @@ func c11jReaders() []c11jReader {
 func TestVerifC11JSON(t *testing.T) {
 	r := vh.New("json-interleavings")
 	defer r.Write()
+	// a scan is a reader: whatever it does, the store's content afterwards is what it was before,
+	// and repeating the scan gives the same answer
+	if sh, _ := vh.Shard(); sh == 0 {
+		p0 := c11jProbe()
+		s0 := NewScanner()
+		for _, sg := range []detection.Signature{c11jSig("S", 1, p0), c11jSig("X", 1, p0), c11jSig("Y", 2, p0)} {
+			sg := sg
+			s0.AddSignature(&sg)
+		}
+		before, _ := json.Marshal(s0.GetDatabase())
+		for _, rd := range c11jReaders() {
+			first := rd.call(s0, p0)
+			for rep := 0; rep < 3; rep++ {
+				r.Eval()
+				if again := rd.call(s0, p0); again != first {
+					r.Violate("reader-not-repeatable/"+rd.name, fmt.Sprintf("%s on an unchanged store answers %q, then %q", rd.name, first, again), nil)
+				}
+			}
+			after, _ := json.Marshal(s0.GetDatabase())
+			if string(after) != string(before) {
+				r.Violate("reader-mutates-store/"+rd.name, fmt.Sprintf("%s changed the stored signatures:\nbefore: %s\nafter:  %s", rd.name, before, after), nil)
+				before = after
+			}
+		}
+		r.Nontrivial("readers-leave-the-store-unchanged")
+	}
 	p := c11jProbe()
 	scratch := vh.Env("SCRATCH")
 	if scratch == "" {
@@ -288,8 +321,17 @@ func TestVerifC11JSONRace(t *testing.T) {
 			go func() { readers[ri].call(s, p); readers[ri].call(s, p); done <- struct{}{} }()
 		}
 		k += 4
-		go func() { x := c11jSig("X", 1, p); s.AddSignature(&x); y := c11jSig("Y", 2, p); s.AddSignature(&y); done <- struct{}{} }()
-		go func() { s.AddSignatures([]detection.Signature{c11jSig("X", 2, p), c11jSig("Z", 1, p)}); done <- struct{}{} }()
+		go func() {
+			x := c11jSig("X", 1, p)
+			s.AddSignature(&x)
+			y := c11jSig("Y", 2, p)
+			s.AddSignature(&y)
+			done <- struct{}{}
+		}()
+		go func() {
+			s.AddSignatures([]detection.Signature{c11jSig("X", 2, p), c11jSig("Z", 1, p)})
+			done <- struct{}{}
+		}()
 		go func() { s.SetThreshold(0.5); s.SaveDatabase(path); done <- struct{}{} }()
 		go func() { s.SaveDatabase(path); s.LoadDatabase(path); done <- struct{}{} }()
 		for ; k > 0; k-- {
